@@ -119,7 +119,40 @@ func init() {
 	}
 }
 
+// manyNamespaces: an element with n declarations of its own, descendants that inherit them all, redeclare some, undeclare the
+// default one (n around and past 64 and 128)
+func manyNamespaces(n int) []Event {
+	st := func(nm string) Event { return Event{Kind: EvStart, B: nm} }
+	ns := func(p, u string) Event { return Event{Kind: EvNs, A: p, B: u} }
+	end := Event{Kind: EvEnd}
+	evs := []Event{st("r"), ns("", "urn:d")}
+	for k := 1; k < n; k++ {
+		evs = append(evs, ns(fmt.Sprintf("p%d", k), fmt.Sprintf("urn:%d", k)))
+	}
+	evs = append(evs, Event{Kind: EvAttr, B: "a", C: "1"},
+		st("c"), ns(fmt.Sprintf("p%d", n-1), "urn:other"), ns("extra", "urn:extra"), st("g"), ns("", ""), st("h"), end, end, end,
+		st("e"), Event{Kind: EvText, A: "t"}, end, end)
+	return evs
+}
+
 func famC10(rn *Runner) {
+	for _, n := range []int{3, 63, 64, 65, 66, 127, 128, 129, 300} {
+		evs := manyNamespaces(n)
+		impl, model, _ := treeCase(rn, evs)
+		rn.Eval(sxEvents(evs), true)
+		rn.Count("many-namespaces")
+		if impl != model {
+			rn.Report(&Replay{Family: "store-dump", Clause: "each element owns its namespace nodes: all the inherited ones, overridden by prefix", Kind: "tree",
+				Events: evs, Doc: showEvents(evs), Impl: impl, Model: model},
+				fmt.Sprintf("store tree differs from the model for an element with %d namespace declarations: implementation %.300s, model %.300s", n, impl, model))
+			continue
+		}
+		root, _ := buildImpl(evs)
+		if s := contractChecks(root); s != "" {
+			rn.Report(&Replay{Family: "store-contract", Clause: s, Kind: "tree", Events: evs, Doc: showEvents(evs), Impl: impl, Model: model, Note: s},
+				"Cursor contract broken: "+s)
+		}
+	}
 	ndocs := rn.Scale(300, 6000)
 	for i := 0; i < ndocs && !rn.TooMany(); i++ {
 		g := NewDocGen(rn.R.Fork(), rn.Scale(40, 150), 6)
